@@ -330,3 +330,143 @@ Proof.
       congruence.
     + intros s t' E. rewrite H in E. discriminate.
 Qed.
+
+(* ------------------------------------------------------------------------------------------ *)
+(* 6. an unconfirmed tracker never completes *)
+
+Theorem never_completes_unconfirmed txids h t k :
+  Inv t -> In k (db_trks t) -> t_conf k = false -> ~ In (trk_uuid k) (completed_list txids h t).
+Proof.
+  intros HI Hk Hc Hin. apply in_completed_list in Hin. destruct Hin as [k' [Hk' [He Hcm]]].
+  pose proof (inv_trks_nodup t HI) as Hnd.
+  pose proof (find_trk_In_NoDup _ k Hnd Hk) as F1. pose proof (find_trk_In_NoDup _ k' Hnd Hk') as F2.
+  rewrite He in F2. assert (k' = k) by congruence. subst k'.
+  apply completes_iff in Hcm. destruct Hcm as [_ [_ [Hc' _]]]. congruence.
+Qed.
+
+(* ------------------------------------------------------------------------------------------ *)
+(* 3. block_disconnected marks exactly the trackers confirmed in the disconnected block *)
+
+Definition marked_at (h : N) (k : trk) : bool := t_conf k && N.eqb (t_height k) h.
+
+Theorem disconnect_marks_exactly t hash h :
+  Inv t ->
+  exists added,
+    r_block_disconnected t hash h =
+      Ok tt (set_reorged (set_r_index (set_car_height t h) (ti_disconnect (r_index t) hash)) (reorged t ++ added)) /\
+    NoDup added /\
+    (forall u, In u added <->
+               ~ In u (reorged t) /\ exists k, In k (db_trks t) /\ trk_uuid k = u /\ t_conf k = true /\ t_height k = h).
+Proof.
+  intros HI. unfold r_block_disconnected.
+  cbn [r_index set_car_height reorged set_r_index db_trks].
+  eexists. split; [reflexivity|]. split.
+  - apply NoDup_filter. apply NoDup_map_filter. exact (inv_trks_nodup t HI).
+  - intros u. rewrite filter_In, in_map_iff, negb_true_iff, mem_uuid_false. split.
+    + intros [[k [He Hk]] Hn]. split; [exact Hn|]. apply filter_In in Hk. destruct Hk as [Hk Hm].
+      apply andb_true_iff in Hm. destruct Hm as [Hc Hh]. apply N.eqb_eq in Hh. exists k. tauto.
+    + intros [Hn [k [Hk [He [Hc Hh]]]]]. split; [|exact Hn]. exists k. split; [exact He|].
+      apply filter_In. split; [exact Hk|]. rewrite Hc, Hh, N.eqb_refl. reflexivity.
+Qed.
+
+Corollary disconnect_reorged_iff t hash h t' :
+  Inv t -> r_block_disconnected t hash h = Ok tt t' ->
+  same_tables t t' /\
+  (forall u, In u (reorged t') <->
+             In u (reorged t) \/ exists k, In k (db_trks t) /\ trk_uuid k = u /\ t_conf k = true /\ t_height k = h) /\
+  (NoDup (reorged t) -> NoDup (reorged t')).
+Proof.
+  intros HI E. destruct (disconnect_marks_exactly t hash h HI) as [added [E' [Hnd Hiff]]].
+  rewrite E' in E. inversion E. subst t'. clear E. split; [repeat split|]. cbn [reorged set_reorged]. split.
+  - intros u. rewrite in_app_iff, Hiff. split; [tauto|].
+    intros [H|H]; [tauto|]. destruct (mem_uuid u (reorged t)) eqn:Em.
+    + left. apply mem_uuid_In. exact Em.
+    + right. apply mem_uuid_false in Em. tauto.
+  - intros Hr. apply NoDup_app_iff. repeat split; [exact Hr|exact Hnd|]. intros x Hx Hx'. apply Hiff in Hx'. tauto.
+Qed.
+
+(* ------------------------------------------------------------------------------------------ *)
+(* the Carrier: memo-aware answers *)
+
+(* what send_transaction answers for x in state t: the memo of the current block period first *)
+Definition eff_status (sc : script) (t : tower) (x : N) : cstatus :=
+  match aget (car_memo t) x with
+  | Some r => r
+  | None => send_status t (snd (script_get sc x))
+  end.
+
+Definition with_carrier (t : tower) (m : list (N * cstatus)) (l : list rpc_event) : tower :=
+  set_rpc_log (set_car_memo t m) l.
+
+Lemma with_carrier_id t : with_carrier t (car_memo t) (rpc_log t) = t.
+Proof. destruct t; reflexivity. Qed.
+
+(* t' is t after some submissions to the node in the same block period *)
+Record carried (sc : script) (t t' : tower) : Prop := {
+  ca_height : car_height t' = car_height t;
+  ca_eff : forall x, eff_status sc t' x = eff_status sc t x;
+  ca_memo_mono : forall x r, aget (car_memo t) x = Some r -> aget (car_memo t') x = Some r;
+  ca_memo_new : forall x r, aget (car_memo t) x = None -> aget (car_memo t') x = Some r ->
+                            In (mk_rpc K_send x r) (rpc_log t');
+  ca_log_mono : forall e, In e (rpc_log t) -> In e (rpc_log t');
+  ca_log_new : forall e, In e (rpc_log t') ->
+                         In e (rpc_log t) \/
+                         (r_kind e = K_send /\ aget (car_memo t) (r_tx e) = None /\
+                          r_res e = eff_status sc t (r_tx e) /\ aget (car_memo t') (r_tx e) = Some (r_res e))
+}.
+
+Lemma carried_refl sc t : carried sc t t.
+Proof. constructor; auto. intros x r H1 H2. congruence. Qed.
+
+Lemma carried_trans sc a b c : carried sc a b -> carried sc b c -> carried sc a c.
+Proof.
+  intros [A1 A2 A3 A4 A5 A6] [B1 B2 B3 B4 B5 B6]. constructor.
+  - congruence.
+  - intros x. rewrite B2. apply A2.
+  - auto.
+  - intros x r Hn Hs. destruct (aget (car_memo b) x) as [r'|] eqn:Eb.
+    + pose proof (B3 _ _ Eb) as Hc. assert (r' = r) by congruence. subst r'. apply B5. apply A4; assumption.
+    + apply B4; assumption.
+  - auto.
+  - intros e He. destruct (B6 e He) as [Hb|[Hk [Hn [Hr Hm]]]].
+    + destruct (A6 e Hb) as [Ha|[Hk [Hn [Hr Hm]]]]; [left; exact Ha|]. right. repeat split; auto.
+    + right. repeat split; [exact Hk| |rewrite Hr; apply A2|exact Hm].
+      destruct (aget (car_memo a) (r_tx e)) as [r'|] eqn:Ea; [|reflexivity].
+      rewrite (A3 _ _ Ea) in Hn. discriminate.
+Qed.
+
+(* states that differ only in fields the carrier does not look at *)
+Lemma carried_ext sc a b b' :
+  carried sc a b -> car_height b' = car_height b -> car_memo b' = car_memo b -> rpc_log b' = rpc_log b ->
+  carried sc a b'.
+Proof.
+  intros [A1 A2 A3 A4 A5 A6] Hh Hm Hl. constructor; rewrite ?Hh, ?Hm, ?Hl; auto.
+  intros x. rewrite <- A2. unfold eff_status, send_status. rewrite Hh, Hm. reflexivity.
+Qed.
+
+Lemma eff_status_ext sc t t' x :
+  car_height t' = car_height t -> car_memo t' = car_memo t -> eff_status sc t' x = eff_status sc t x.
+Proof. intros Hh Hm. unfold eff_status, send_status. rewrite Hh, Hm. reflexivity. Qed.
+
+Lemma send_spec sc t x :
+  exists m l, send_transaction sc t x = (eff_status sc t x, with_carrier t m l) /\
+              carried sc t (with_carrier t m l) /\ aget m x = Some (eff_status sc t x).
+Proof.
+  unfold send_transaction, eff_status. destruct (aget (car_memo t) x) as [r|] eqn:Em.
+  - exists (car_memo t), (rpc_log t). rewrite with_carrier_id. split; [reflexivity|]. split; [apply carried_refl|exact Em].
+  - set (r := send_status t (snd (script_get sc x))).
+    exists ((x, r) :: car_memo t), (mk_rpc K_send x r :: rpc_log t). split; [reflexivity|]. split.
+    + constructor; unfold with_carrier; cbn [car_height car_memo rpc_log set_rpc_log set_car_memo].
+      * reflexivity.
+      * intros y. unfold eff_status, send_status. cbn [car_memo car_height set_rpc_log set_car_memo aget]. destruct (N.eqb y x) eqn:E.
+        -- apply N.eqb_eq in E. subst y. rewrite Em. reflexivity.
+        -- reflexivity.
+      * intros y r' Hy. cbn [aget]. destruct (N.eqb y x) eqn:E; [|exact Hy].
+        apply N.eqb_eq in E. subst y. congruence.
+      * intros y r' Hn Hs. cbn [aget] in Hs. destruct (N.eqb y x) eqn:E; [|congruence].
+        apply N.eqb_eq in E. subst y. inversion Hs. left. reflexivity.
+      * intros e He. right. exact He.
+      * intros e [He|He]; [|left; exact He]. right. subst e. cbn [r_kind r_tx r_res aget].
+        rewrite N.eqb_refl. unfold eff_status. rewrite Em. repeat split.
+    + cbn [aget]. rewrite N.eqb_refl. reflexivity.
+Qed.
